@@ -436,6 +436,8 @@ func runC13(c *Ctx) {
 	ruleConnChannel(c, p, "C13.conn-channel")
 	ruleCodeWidth(c, p, "C13.codewidth")
 	ruleExceptionChain(c, p, "C13.exception-chain")
+	ruleDeadlineDisarmed(c, p, "C13.disarm")
+	ruleVarintFastPath(c, p, "C13.varint")
 	ruleSettingsEnd(c, p, "C13.settings-end")
 	hs := p.Method(core.PkgCh, "Client", "handshake")
 	if !c.must(p, "(*ch.Client).handshake", hs != nil) {
